@@ -85,7 +85,7 @@ def run(F, R, tier):
         for s in somes:
             g = guards_at(F, s)
             ok = any(x.kind == "cond" and not x.pol and x.node.get("k") == "Unary" and x.node["op"] == "!" and peel(x.node["e"]) is valid[0] for x in g) or \
-                any(x.kind == "cond" and x.pol and x.node is valid[0] for x in g)
+                any(x.holds(valid[0]) is True for x in g)
             R.ob("C12-b", "a cached package is used only after validation succeeded", ok,
                  "Some(package) is not dominated by a successful is_cache_item_valid: stale cache entries would be served", where(s))
     iv = F.body("fast_check::range_finder::PublicRangeFinder::is_cache_item_valid")
@@ -109,7 +109,7 @@ def run(F, R, tier):
     ok = len(deps) == 1 and any(callee_matches(x, ["PublicRangeFinder::add_pending_nv_no_referrer"]) for x in walk(deps[0]["body"]))
     R.ob("C12-b", "a cache hit re-queues every recorded dependency package", ok, "cached dependencies are not replayed", tg["file"])
     apn = F.body("fast_check::range_finder::PublicRangeFinder::add_pending_nv")
-    fl = Flow(F, lambda n: n.get("k") == "MethodCall" and n["name"] == "insert" and peel(n["recv"]).get("field") == "dependencies")
+    fl = Flow(F, lambda n: n.get("k") == "MethodCall" and n["name"] == "insert" and field_of(n["recv"]) == "dependencies")
     fl.run(apn["body"]["value"], False)
     bad = []
     for kind, node, st in fl.exits:
